@@ -2,6 +2,7 @@ SPECIFICATION Spec
 CONSTANTS Versions = {1, 2}
   MaxSteps = 4
   ReAddOnRemove = TRUE
+  OnlyRotations = FALSE
   Serialized = TRUE
 INVARIANTS Converges ServedIsValidVersion
 CHECK_DEADLOCK FALSE
